@@ -137,8 +137,8 @@ class GlomError(Exception):
         # defined in pure-python as well as C
         exc_type = type(exc)
         bases = (GlomError,) if issubclass(GlomError, exc_type) else (exc_type, GlomError)
-        exc_wrapper_type = type(f"GlomError.wrap({exc_type.__name__})", bases, {})
         try:
+            exc_wrapper_type = type(f"GlomError.wrap({exc_type.__name__})", bases, {})
             wrapper = exc_wrapper_type(*exc.args)
             # the constructor may have transformed the args, and
             # attributes may have been attached after construction
